@@ -91,8 +91,28 @@ func c19Content(kind int) []byte {
 	return nil
 }
 
-func c19Harness(nNames int, allKinds bool) Harness {
+// c19ClockPatterns: how the wall clock moves while the directory is replayed (the source prints
+// progress once per second of wall time): which Next calls are preceded by a 2 s jump.
+var c19ClockPatterns = []string{"steady", "2s-before-every-Next", "2s-before-the-first-Next", "2s-before-the-second-Next", "2s-before-the-third-Next"}
+
+func c19Jump(pattern, call int) bool {
+	switch pattern {
+	case 1:
+		return true
+	case 2, 3, 4:
+		return call == pattern-2
+	}
+	return false
+}
+
+func c19Harness(nNames int, allKinds bool) Harness { return c19HarnessClock(nNames, allKinds, false) }
+
+func c19HarnessClock(nNames int, allKinds bool, clock bool) Harness {
 	return func(c *Ctx) {
+		pattern := 0
+		if clock {
+			pattern = 1 + c.Free("clock", len(c19ClockPatterns)-1)
+		}
 		kinds := make([]int, nNames)
 		var desc []string
 		for i := 0; i < nNames; i++ {
@@ -107,6 +127,9 @@ func c19Harness(nNames int, allKinds bool) Harness {
 		}
 		reverseCreation := c.Free("creation_order_reversed", 2) == 1
 		d := strings.Join(desc, " ")
+		if clock {
+			d += " clock=" + c19ClockPatterns[pattern]
+		}
 		c.Input(hash64(d+fmt.Sprint(reverseCreation)), len(desc) >= 2, func() string { return fmt.Sprintf("directory {%s} created in reverse order: %v", d, reverseCreation) })
 		dir, err := os.MkdirTemp(scratchBase(), "verifc19")
 		if err != nil {
@@ -209,8 +232,13 @@ func c19Harness(nNames int, allKinds bool) Harness {
 		}
 		var got []*gtfs.Realtime
 		ok := guardSig(c, "DirectoryGtfsrtSource.Next", func() {
+			var ahead int64
 			for i := 0; i < len(names)+4; i++ {
-				r := src.Next()
+				if c19Jump(pattern, i) {
+					ahead += 2
+				}
+				var r *gtfs.Realtime
+				withClockAdvanced(ahead, func() { r = src.Next() })
 				if r == nil {
 					// must stay nil
 					for k := 0; k < 3; k++ {
@@ -271,6 +299,9 @@ func c19Harness(nNames int, allKinds bool) Harness {
 		if len(wantNames) >= 2 {
 			c.Witness("two_or_more_good_files")
 		}
+		if clock && len(wantNames) >= 2 {
+			c.Witness("clock_jumps_between_good_files")
+		}
 	}
 }
 
@@ -289,8 +320,9 @@ func scratchBase() string {
 var c19QuickKinds = []int{0, 1, 2, 4, 6, 8, 9, 10, 11, 12, 13}
 
 // c19NameOrder: good files under names whose byte order differs from "natural", extension-less,
-// case-insensitive or numeric order: every subset of 4 of 10 names.
-var c19TrickyNames = []string{"snapshot.pb", "snapshot-2.pb", "snapshot (copy).pb", "snapshot.2.pb", "snapshot_3.pb", "Snapshot.pb", "snapshot.pb.1", "snapshot", "2.pb", "10.pb"}
+// case-insensitive or numeric order: every subset of 4 of 18 names.
+var c19TrickyNames = []string{"snapshot.pb", "snapshot-2.pb", "snapshot (copy).pb", "snapshot.2.pb", "snapshot_3.pb", "Snapshot.pb", "snapshot.pb.1", "snapshot", "2.pb", "10.pb",
+	"caf\xe9-2.pb" /* not valid UTF-8 */, "\xff\xfe", "two\nlines.pb", " leading-space.pb", ".hidden.pb", "-dash.pb", "caf\u00e9-2.pb", strings.Repeat("long-name-", 24) + ".pb"}
 
 func c19NameOrder(c *Ctx) {
 	var idx []int
@@ -446,14 +478,14 @@ func init() {
 	register(&Check{
 		ID:    "C19",
 		Level: "fault_enumeration",
-		Rule: "every assignment of {absent, good1, good2, good3, empty, cut-in-header, cut-in-entity, cut-last-byte, corrupt, sub-directory, vanishes after listing, replaced by a directory after listing, symlink to a good file, dangling symlink} to the names 10, 9, B, a, é (thorough: 14^5 = 537 824 directories; quick: the first 4 names, 14^4 = 38 416) - x 2 creation orders, on a real temporary directory; plus every 4-subset of 10 file names whose byte order differs from extension-less / natural / case-insensitive order; plus directories in which one of three good files is 70 KiB / 1 MiB / 4 MiB / 17 MiB large, at each position; " +
+		Rule: "every assignment of {absent, good1, good2, good3, empty, cut-in-header, cut-in-entity, cut-last-byte, corrupt, sub-directory, vanishes after listing, replaced by a directory after listing, symlink to a good file, dangling symlink} to the names 10, 9, B, a, é (thorough: 14^5 = 537 824 directories; quick: the first 4 names, 14^4 = 38 416) - x 2 creation orders, on a real temporary directory; plus every 4-subset of 18 file names (byte order differing from extension-less / natural / case-insensitive order; names that are not valid UTF-8, contain a newline, start with a blank, a dot or a dash, are 240 bytes long); plus 3-name directories replayed while the wall clock jumps 2 s before chosen Next calls (the source reports progress once per second); plus directories in which one of three good files is 70 KiB / 1 MiB / 4 MiB / 17 MiB large, at each position; " +
 			"non-trivial = distinct directories with >= 2 entries; oracle = independent parses of the readable, parseable entries in byte order of their names, nil afterwards, and equality of the journals",
 		Assumptions: []string{"unreadable means: is a directory or no longer exists (the checks run as root, so permission faults cannot be produced)", "whether a damaged file still 'parses as GTFS-realtime' is decided independently of the library, by strictly decoding its bytes as a FeedMessage"},
 		Scenarios: func(tier string) []*Scenario {
 			if tier == "thorough" {
-				return []*Scenario{{Name: "directories-5-names-14-kinds", Bound: -1, Run: c19Harness(5, true)}, {Name: "large-files", Bound: -1, Run: c19Large}, {Name: "name-order", Bound: -1, Run: c19NameOrder}}
+				return []*Scenario{{Name: "directories-5-names-14-kinds", Bound: -1, Run: c19Harness(5, true)}, {Name: "large-files", Bound: -1, Run: c19Large}, {Name: "name-order", Bound: -1, Run: c19NameOrder}, {Name: "clock-jumps-3-names", Bound: -1, Run: c19HarnessClock(3, true, true)}}
 			}
-			return []*Scenario{{Name: "directories-4-names-14-kinds", Bound: -1, Run: c19Harness(4, true)}, {Name: "large-files", Bound: -1, Run: c19Large}, {Name: "name-order", Bound: -1, Run: c19NameOrder}}
+			return []*Scenario{{Name: "directories-4-names-14-kinds", Bound: -1, Run: c19Harness(4, true)}, {Name: "large-files", Bound: -1, Run: c19Large}, {Name: "name-order", Bound: -1, Run: c19NameOrder}, {Name: "clock-jumps-3-names", Bound: -1, Run: c19HarnessClock(3, false, true)}}
 		},
 	})
 }
